@@ -78,7 +78,8 @@ func c04WhichDots(r *an.Run) {
 				}
 				x, xok := cmp.X.(*ssa.Call)
 				y, yok := cmp.Y.(*ssa.Call)
-				if xok && yok && an.StaticCallee(x) == lineFn && an.StaticCallee(y) == lineFn {
+				_ = lineFn
+				if xok && yok && isLineOfPos(x, 0) && isLineOfPos(y, 0) {
 					name = "same-line"
 				}
 				if name == "" {
@@ -346,20 +347,50 @@ func c04AnchoringAndConsumption(r *an.Run) {
 			continue
 		}
 		a := c.Common().Args
-		sl, ok := a[1].(*ssa.Slice)
-		good := ok && an.Path(sl.X) == "m.Sections" && sl.High == nil
-		if good {
-			k, isc := an.ConstInt(sl.Low)
-			good = isc && k == 1
+		good, dotsOK := false, false
+		for _, arg := range a {
+			if sl, ok := arg.(*ssa.Slice); ok && an.Path(sl.X) == "m.Sections" && sl.High == nil {
+				if k, isc := an.ConstInt(sl.Low); isc && k == 1 {
+					good = true
+				}
+			}
+			if an.Path(arg) == "m.Dots" {
+				dotsOK = true
+			}
 		}
 		r.Check(good, short(m)+"|rest", c.Pos(), "all remaining sections m.Sections[1:] go to the section search")
-		r.Check(an.Path(a[0]) == "m.Dots", short(m)+"|dots", c.Pos(), "together with all recorded dots positions")
+		r.Check(dotsOK, short(m)+"|dots", c.Pos(), "together with all recorded dots positions")
 	}
 	// matchSections: classify possibly-true returns
 	vidx, _ := an.VerdictIndex(ms.Signature)
-	got, idx, sections := paramNamed(ms, "got"), paramNamed(ms, "idx"), paramNamed(ms, "sections")
-	if got == nil || idx == nil || sections == nil {
-		r.Undecided(short(ms)+"|params", ms.Pos(), "matchSections no longer has parameters named got, idx, sections: cannot analyse")
+	gotP, idx, sections := paramNamed(ms, "got"), paramNamed(ms, "idx"), paramNamed(ms, "sections")
+	// the candidate list: the parameter `got`, or — when the loop invariants of the search were gathered in a
+	// receiver struct — the receiver's field that holds the list of reflect values
+	isGot := func(v ssa.Value) bool { return gotP != nil && v == ssa.Value(gotP) }
+	if gotP == nil {
+		if recv := recvValue(ms); recv != nil {
+			field := ""
+			if st, ok := derefStruct(recv.Type()); ok {
+				for i := 0; i < st.NumFields(); i++ {
+					if sl, ok := st.Field(i).Type().Underlying().(*types.Slice); ok && isReflectValue(sl.Elem()) {
+						if field != "" {
+							field = "?"
+						} else {
+							field = st.Field(i).Name()
+						}
+					}
+				}
+			}
+			if field != "" && field != "?" {
+				isGot = func(v ssa.Value) bool {
+					return loadedField(v) == field && (an.Root(v) == ssa.Value(recv) || rootIsSpillOf(v, recv))
+				}
+				gotP = recv // marks "found"
+			}
+		}
+	}
+	if gotP == nil || idx == nil || sections == nil {
+		r.Undecided(short(ms)+"|params", ms.Pos(), "matchSections no longer has the candidate list, idx and sections as parameters (or the list in its receiver): cannot analyse")
 		return
 	}
 	nEnd, nTrail, nProp := 0, 0, 0
@@ -376,7 +407,7 @@ func c04AnchoringAndConsumption(r *an.Run) {
 	for _, ret := range an.PossiblyTrueReturns(ms, vidx) {
 		v := ret.Results[vidx]
 		switch {
-		case isIdxEqLen(v, idx, got):
+		case isIdxEqLen(v, idx, isGot):
 			nEnd++
 			// only when no section remains
 			var noneLeft []an.CtrlEdge
@@ -398,7 +429,7 @@ func c04AnchoringAndConsumption(r *an.Run) {
 			recorded := false
 			for _, in := range ret.Block().Instrs {
 				if c, ok := in.(*ssa.Call); ok && an.StaticCallee(c) == r.P.Func(engine, "pushSliceDotsSkipped") {
-					if sl, ok := c.Call.Args[2].(*ssa.Slice); ok && sl.X == ssa.Value(got) && sl.Low == ssa.Value(idx) && sl.High == nil {
+					if sl, ok := c.Call.Args[2].(*ssa.Slice); ok && isGot(sl.X) && sl.Low == ssa.Value(idx) && sl.High == nil {
 						recorded = true
 					}
 				}
@@ -451,7 +482,7 @@ func c04AnchoringAndConsumption(r *an.Run) {
 		rec := false
 		for v := range an.BackSlice(c.Common().Args[2], an.SliceOpts{ThroughCalls: true}) {
 			if pc, ok := v.(*ssa.Call); ok && an.StaticCallee(pc) == r.P.Func(engine, "pushSliceDotsSkipped") {
-				if sl, ok := pc.Call.Args[2].(*ssa.Slice); ok && sl.X == ssa.Value(got) {
+				if sl, ok := pc.Call.Args[2].(*ssa.Slice); ok && isGot(sl.X) {
 					nRec++
 					rec = sl.Low == ssa.Value(idx) && sl.High == start
 					r.Check(rec, short(ms)+"|run-bounds", pc.Pos(), "the run recorded for the '...' is got[idx:i]: from the search's own start to the very index the section is tried at")
@@ -604,14 +635,14 @@ func constTrue(v ssa.Value) bool {
 	return ok && b
 }
 
-func isIdxEqLen(v ssa.Value, idx, got ssa.Value) bool {
+func isIdxEqLen(v ssa.Value, idx ssa.Value, isGot func(ssa.Value) bool) bool {
 	cmp, ok := v.(*ssa.BinOp)
 	if !ok || cmp.Op != token.EQL {
 		return false
 	}
 	isLen := func(x ssa.Value) bool {
 		c, ok := x.(*ssa.Call)
-		return ok && an.IsCallTo(c, "builtin:len") && c.Call.Args[0] == got
+		return ok && an.IsCallTo(c, "builtin:len") && isGot(c.Call.Args[0])
 	}
 	return cmp.X == idx && isLen(cmp.Y) || cmp.Y == idx && isLen(cmp.X)
 }
@@ -953,4 +984,52 @@ func dotsRecordSite(f *ssa.Function) (site ssa.Instruction, alloc *ssa.Alloc) {
 		}
 	}
 	return nil, nil
+}
+
+// isLineOfPos: the call yields the line number of a position — a direct
+// (*token.File).Line call, or a module helper all of whose returns are one.
+func isLineOfPos(c *ssa.Call, depth int) bool {
+	if an.IsCallTo(c, "(*go/token.File).Line") {
+		return true
+	}
+	h := an.StaticCallee(c)
+	if h == nil || !an.InModule(h) || h.Blocks == nil || depth > 2 {
+		return false
+	}
+	rets := an.Returns(h)
+	if len(rets) == 0 {
+		return false
+	}
+	for _, ret := range rets {
+		if len(ret.Results) != 1 {
+			return false
+		}
+		rc, ok := ret.Results[0].(*ssa.Call)
+		if !ok || !isLineOfPos(rc, depth+1) {
+			return false
+		}
+	}
+	return true
+}
+
+func derefStruct(t types.Type) (*types.Struct, bool) {
+	if p, ok := t.Underlying().(*types.Pointer); ok {
+		t = p.Elem()
+	}
+	st, ok := t.Underlying().(*types.Struct)
+	return st, ok
+}
+
+// rootIsSpillOf: v's path starts at the local copy of value receiver recv.
+func rootIsSpillOf(v ssa.Value, recv *ssa.Parameter) bool {
+	root := an.Root(v)
+	for steps := 0; steps < 4; steps++ {
+		if u, ok := root.(*ssa.UnOp); ok {
+			root = an.Root(u.X)
+			continue
+		}
+		break
+	}
+	a, ok := root.(*ssa.Alloc)
+	return ok && a.Comment == recv.Name()
 }
